@@ -49,6 +49,14 @@ HIGHER_ORDER = {"map", "for_each", "fold", "any", "all", "filter", "filter_map",
 CB = "plonky2::plonk::circuit_builder::CircuitBuilder"
 
 
+def circ_range(it):
+    """(start, end) if `it` is a Range adt, else None (the same test as circ.range_expr, without the import cycle)"""
+    if isinstance(it, tuple) and it and it[0] == "adt" and len(it) > 3 and it[1].endswith("ops::range::Range"):
+        d = dict(it[3])
+        return d.get("start"), d.get("end")
+    return None
+
+
 def short_name(t):
     """canonical short callee name for a call terminator"""
     f = t.get("r") or t.get("f")
@@ -91,13 +99,14 @@ class Effect:
 
 
 class Evaluator:
-    def __init__(self, prog, inline=None, max_depth=6, names=True):
+    def __init__(self, prog, inline=None, max_depth=6, names=True, stamp_loops=False):
         """names=False: integer constants carry no definition path (`FOO` and the literal it equals are the same term) — for the circuit
         rules, which compare structure and values; the policy rules that ask "is it the shared constant" keep names=True"""
         self.prog = prog
         self.inline = inline or (lambda path: False)
         self.max_depth = max_depth
         self.names = names
+        self.stamp_loops = stamp_loops
         self.site_loc = {}
         self.site_effect = {}
 
@@ -410,27 +419,33 @@ class Frame:
             return cb.path if cb is not None else None
         return None
 
-    def elem(self, it):
+    def elem(self, it, stamp=None):
+        """element term of one iteration over `it`.  stamp: the site of the `for` loop's into_iter (Evaluator(stamp_loops=True)):
+        the leaves ("elem", X) / ("index", X) become ("elem", ("rng", site, X)), so two loops over the same collection (an outer
+        `for x in v` and an inner `for (y, z) in v.iter().zip(w)`) have different element terms"""
         tag = it[0] if isinstance(it, tuple) and it else None
+        if tag == "rng" and len(it) == 3 and circ_range(it[2]) is None:
+            return self.elem(it[2], stamp=it[1])
+        st = (lambda x: ("rng", stamp, x)) if stamp is not None else (lambda x: x)
         if tag == "zip":
-            return ("tuple", (self.elem(it[1]), self.elem(it[2])))
+            return ("tuple", (self.elem(it[1], stamp), self.elem(it[2], stamp)))
         if tag == "enumerate":
-            return ("tuple", (("index", it[1]), self.elem(it[1])))
+            return ("tuple", (("index", st(it[1])), self.elem(it[1], stamp)))
         if tag == "map":
-            r = self.closure_ret(it[2], [self.elem(it[1])], site_hint=it[3] if len(it) > 3 else None)
+            r = self.closure_ret(it[2], [self.elem(it[1], stamp)], site_hint=it[3] if len(it) > 3 else None)
             # a closure that creates something fresh per call (a virtual target): the collected vector's elements are distinct
             # objects, so "the element of this iteration" stays an element of the vector (same rule as index())
             if _generative(r, self._closure_path(it[2]), self.ev.prog.bodies):
-                return ("elem", ("gen", it))
+                return ("elem", st(("gen", it)))
             return r
         if tag in ("rev",):
-            return self.elem(it[1])
+            return self.elem(it[1], stamp)
         if tag in ("take", "skip") and isinstance(it[1], tuple) and it[1] and it[1][0] == "map":
             m = it[1]
-            return self.closure_ret(m[2], [self.elem((tag, m[1], it[2]))], site_hint=m[3] if len(m) > 3 else None)
+            return self.closure_ret(m[2], [self.elem((tag, m[1], it[2]), stamp)], site_hint=m[3] if len(m) > 3 else None)
         if tag in ("take", "skip") and isinstance(it[1], tuple) and it[1] and it[1][0] == "enumerate":
-            return ("tuple", (("index", it), self.elem((tag, it[1][1], it[2]))))
-        return ("elem", it)
+            return ("tuple", (("index", st(it)), self.elem((tag, it[1][1], it[2]), stamp)))
+        return ("elem", st(it))
 
     def operand_term(self, op):
         if "k" in op:
@@ -539,9 +554,10 @@ class Frame:
             a = args[1][1] if (len(args) > 1 and isinstance(args[1], tuple) and args[1][0] == "tuple") else (args[1:] if len(args) > 1 and args[1] != ("unit",) else [])
             return self.closure_ret(args[0], list(a), site_hint=site)
         if is_std or f.startswith(("anyhow::", "itertools::")):
-            if name == "into_iter" and args and isinstance(args[0], tuple) and args[0] and args[0][0] == "adt" and args[0][1].endswith("ops::range::Range"):
+            if name == "into_iter" and args and isinstance(args[0], tuple) and args[0] and (circ_range(args[0]) is not None or (self.ev.stamp_loops and args[0][0] != "rng")):
                 # `for i in a..b`: the loop's iterator is stamped with its site, so that two loops over equal ranges (a nested
-                # `for j in 0..n` inside `for i in 0..n`) have different element terms
+                # `for j in 0..n` inside `for i in 0..n`) have different element terms; with Evaluator(stamp_loops=True) every
+                # `for` loop is stamped (two loops over the same collection)
                 return ("rng", site, args[0])
             if name in TRANSPARENT_NAMES and args:
                 return args[0]
@@ -758,6 +774,10 @@ class Frame:
                             if name == "for_each" and ai == 1 and t.get("trait") == "core::iter::traits::iterator::Iterator":
                                 # `it.for_each(|x| body)` is `for x in it { body }`: same control entry, same element term
                                 ch._collect(emit, ctrl + (("loop", args[0], ("1",), bb, self.body.id),))
+                            elif name == "map" and ai == 1 and t.get("trait") == "core::iter::traits::iterator::Iterator" and self._collected_next(bb):
+                                # `it.map(|x| body).collect()`: the closure runs once per element, in order, like a `for` loop
+                                # (only when the adaptor is consumed whole by the very next call; a lazy or truncated map stays a closure)
+                                ch._collect(emit, ctrl + (("loop", args[0], ("1",), bb, self.body.id),))
                             else:
                                 ch._collect(emit, ctrl + (("closure", name, (), bb),))
                     elif isinstance(a, tuple) and a and a[0] == "map" and name in ("collect",):
@@ -772,6 +792,18 @@ class Frame:
                 e = Effect(site, sn, cga, args, ctrl, loc, self, bb, t, res, 0)
                 self.ev.site_effect[site] = e
                 emit(e)
+
+    def _collected_next(self, bb):
+        """the value produced by the call ending block `bb` is consumed, whole, by a `collect` in the block it continues to"""
+        t = self.body.blocks[bb]["t"]
+        nxt = t.get("t")
+        if nxt is None or t["dest"]["p"]:
+            return False
+        t2 = self.body.blocks[nxt]["t"]
+        if t2.get("k") != "call" or t2.get("name") not in ("collect",) or not t2.get("args"):
+            return False
+        a0 = t2["args"][0].get("m") or t2["args"][0].get("c")
+        return bool(a0) and not a0["p"] and a0["l"] == t["dest"]["l"]
 
     def _closure_args_for(self, name, args, ai):
         recv = args[0] if args else ("unk", "recv")
